@@ -22,6 +22,8 @@ def generate(rng, tier, idx):
     path = "/sim/d/composeinfo.json"
     for cycle in range(rng.randint(1, 3)):
         ops.append({"op": "dump", "path": path})
+        if rng.random() < 0.2:
+            ops.append({"op": "ci_rewrite_type_case", "path": path, "how": pick(rng, ["upper", "title"])})
         ops.append({"op": "restart", "path": path, "via": pick(rng, ["path", "handle", "loads"]), "offset": rng.randint(0, 2000)})
         if rng.random() < 0.5:
             ops.append({"op": "restart", "path": path, "via": pick(rng, ["path", "handle", "loads"]), "offset": rng.randint(0, 2000)})
